@@ -82,6 +82,34 @@ def programs_C02(rng, tier):
     return out
 
 
+def conversion_sites_C03():
+    """conversion sites beyond declarations/assignments: loaded values, arguments of sub-routines and macros, return values"""
+    out = []
+    ea = ("assign", ("var", "EA", (False, 32)), "=", reg("RsV"))
+    for w in (8, 16, 32, 64):
+        for sg in ("s", "u"):
+            for t in TN:
+                ld = ("load", t, T[t], sg, w)
+                out.append([ea, decl(t, "b", ld), wr("RddV", var("b", t))])
+                out.append([ea, wr("RddV", ld)])
+    for name, pts, rt in gen.CALLS:
+        for t1 in TN:
+            a = var("a", t1)
+            pre = [decl(t1, "a", ("cast", t1, T[t1], reg("RssV")))]
+            args = [a] + [("bin", "&", reg("RvV"), ("lit", "15", 15, (True, 32)))] * (len(pts) - 1)
+            for t2 in ("int64_t", "uint64_t", "int16_t", "uint8_t"):
+                out.append(pre + [decl(t2, "r", ("call", name, args, rt)), wr("RddV", var("r", t2))])           # argument + return into T2
+            out.append(pre + [wr("RddV", ("call", name, args, rt))])
+    for t1 in TN:
+        a = var("a", t1)
+        pre = [decl(t1, "a", ("cast", t1, T[t1], reg("RssV")))]
+        out.append(pre + [wr("RddV", ("macro", "sextract64", [a, ("lit", "0", 0, (True, 32)), ("lit", "8", 8, (True, 32))], (True, 64)))])
+        out.append(pre + [wr("RddV", ("macro", "extract64", [a, ("lit", "4", 4, (True, 32)), ("lit", "12", 12, (True, 32))], (False, 64)))])
+        out.append(pre + [("vcall", "set_usr_field", ["bundle", "HEX_REG_FIELD_USR_LPCFG"], [a]),
+                          wr("RdV", ("callx", "get_usr_field", ["bundle", "HEX_REG_FIELD_USR_LPCFG"], [], (False, 32)))])
+    return out
+
+
 def programs_C03(rng, tier):
     out = []
     for t1 in TN:
@@ -142,6 +170,16 @@ def programs_C09(rng, tier):
         else:
             # metamorphic shape: the same operation with the literal routed through a local (nothing folds)
             out.append([("decl", "int64_t", (True, 64), "t", a), wr("RddV", ("bin", "+", var("t", "int64_t"), b))])
+    # sizeof: a compile-time constant, ceil(width / 8) of its operand's own (unpromoted) type
+    for opnd, w in (("PuV", 8), ("RsV", 32), ("RssV", 64), ("CsV", 32), ("NsN", 32)):     # not an immediate: its operand object would register an imm_assign the literal cannot carry
+        sz = ("lit", f"sizeof({opnd})", (w + 7) // 8, (True, 32))
+        out.append([wr("RddV", ("bin", "*", sz, ("lit", "8", 8, (True, 32))))])
+        out.append([wr("RdV", ("tern", ("cmp", "==", sz, one), reg("RsV"), reg("RtV")))])
+        out.append([wr("RdV", ("tern", ("cmp", ">=", ("imm", "uiV", (False, 32)), ("bin", "*", sz, ("lit", "8", 8, (True, 32)))), ("lit", "0", 0, (True, 32)), reg("RtV")))])
+    for t in TN:
+        sz = ("lit", "sizeof(a)", T[t][1] // 8, (True, 32))
+        out.append([decl(t, "a", ("cast", t, T[t], reg("RssV"))), wr("RddV", ("bin", "+", sz, var("a", t)))])
+        out.append([decl(t, "a", ("cast", t, T[t], reg("RssV"))), wr("RdV", ("tern", ("cmp", "<", sz, ("lit", "4", 4, (True, 32))), reg("RsV"), reg("RtV")))])
     # conditions that are conversions of literals: whatever is decided at compile time must apply the conversion first
     for txt in ("0x100", "0x10000", "0x100000000LL", "0x30000", "0xff00", "0x180", "0x80", "256", "65536", "1", "0"):
         for ts in (["int8_t"], ["uint8_t"], ["int16_t"], ["uint16_t"], ["uint32_t"], ["int64_t", "uint16_t"], ["int32_t", "int8_t"], ["uint64_t", "uint8_t"]):
@@ -242,6 +280,21 @@ def programs_C05(rng, tier):
         out.append([decl("uint32_t", "n", m), ("for", "i", ("bin", "+", n_u, L(0)), [("assign", n_u, ">>=", L(1)), acc]), wr("RdV", n_u)])
         out.append([wr("RxV", m), ("for", "i", ("bin", "&", reg("RxV"), L(7)), [("assign", ("reg", "RxV", (True, 32)), ">>=", L(1)), wr("ReV", iv)])])  # bound reads a register the body writes
         out.append([decl("uint32_t", "n", m), ("for", "i", L(3), [("for", "j", ("bin", "-", n_u, iv), [acc])])])              # inner bound reads the outer counter
+    # a bare `x++;` / `x--;` statement inside an arm runs only when the arm does
+    n_, k_ = var("n", "uint32_t"), var("k", "uint32_t")
+    for c in (reg("PuV"), ("cmp", ">", reg("RsV"), reg("RtV"))):
+        pre = [decl("uint32_t", "n", reg("RsV")), decl("uint32_t", "k", reg("RtV"))]
+        out.append(pre + [("if", c, [("exprstmt", ("post", "n", "++", u32))], [("exprstmt", ("post", "k", "--", u32))]), wr("RdV", n_), wr("ReV", k_)])
+        out.append(pre + [("if", c, [("exprstmt", ("post", "n", "++", u32))], None), wr("RdV", n_)])
+        out.append(pre + [("if", c, [wr("RxV", n_), ("exprstmt", ("post", "n", "++", u32))], [wr("RxV", k_)]), wr("RdV", n_)])
+        out.append(pre + [("for", "i", L(8), [("if", ("bin", "&", ("shift", ">>", k_, iv), L(1)), [("exprstmt", ("post", "n", "++", u32))], None)]), wr("RdV", n_)])   # popcount-like
+        out.append(pre + [("if", c, [("if", reg("PvV"), [("exprstmt", ("post", "n", "++", u32))], [("exprstmt", ("post", "n", "--", u32))])], None), wr("RdV", n_)])
+    # the whole condition is a narrowing conversion
+    for t in ("uint8_t", "int16_t", "int32_t", "uint16_t"):
+        c = ("cast", t, T[t], reg("RssV"))
+        out.append([("if", c, [wr("RdV", L(1))], [wr("RdV", L(2))])])
+        out.append([("if", ("cast", "int64_t", T["int64_t"], c), [wr("RdV", L(1))], [wr("RdV", L(2))])])
+        out.append([decl("uint32_t", "n", L(0)), ("for", "i", ("cast", t, T[t], ("bin", "&", reg("RsV"), L(0x103))), [("assign", n_, "+=", L(1))]), wr("RdV", n_)])
     return out
 
 
@@ -271,6 +324,16 @@ def programs_C06(rng, tier):
         out.append(pre + [wr("RdV", ("tern", reg("PuV"), h(), reg("RvV")))])                                      # ?: arm
         out.append(pre + [wr("RdV", ("bin", "+", h(), call("clz32", reg("RvV")))), wr("ReV", iv)])                # two in one expression
     out += void_call_programs()
+    # statement-expression arms guarded by every comparison operator (the guard of an else arm is the NEGATED condition,
+    # which differs from the mirrored one exactly when both sides are equal)
+    for op in gen.CMPS:
+        for a_, b_ in ((reg("RsV"), reg("RtV")), (reg("RsV"), reg("RsV")), (v, iv)):
+            c = ("cmp", op, a_, b_)
+            se1 = ("stmtexpr", "", T["uint32_t"], "v", ("bin", "+", v, one), False)
+            se2 = ("stmtexpr", "", (False, 32), "i", ("bin", "-", iv, one), False)
+            out.append(pre + [wr("RdV", ("tern", c, reg("RvV"), se1)), wr("ReV", v)])
+            out.append(pre + [wr("RdV", ("tern", c, se1, reg("RvV"))), wr("ReV", v)])
+            out.append(pre + [wr("RdV", ("tern", c, se1, se2)), wr("ReV", ("bin", "+", iv, v))])
     for p in out:
         if any(s[0] == "store" for s in p):
             p.insert(0, ("assign", ("var", "EA", (False, 32)), "=", reg("RuV")))
@@ -557,7 +620,11 @@ def run_prop(prop: str, tier: str, replay=None) -> int:
     if prop == "C02":
         asts = programs_C02(rng, tier) + stream_generated(rng, 60, 60, gen.Cfg(hybrids=0.0, max_stmts=2, loops=0.0, ifs=0.1, mem=0.0, jumps=0.0))
     elif prop == "C03":
-        asts = programs_C03(rng, tier) + stream_generated(rng, 40, 40, gen.Cfg(hybrids=0.0, max_stmts=3, casts=0.5, loops=0.0))
+        cs = conversion_sites_C03()
+        if tier == "quick":
+            rng.shuffle(cs)
+            cs = cs[:260]
+        asts = programs_C03(rng, tier) + cs + stream_generated(rng, 40, 40, gen.Cfg(hybrids=0.0, max_stmts=3, casts=0.5, loops=0.0))
     elif prop == "C05":
         n = 220 if tier == "quick" else 2500
         asts = programs_C05(rng, tier) + stream_generated(rng, n, n // 2, gen.Cfg(hybrids=0.0, max_stmts=6, max_nest=3, loops=0.2, ifs=0.3, compound_assign=0.4, max_depth=2, chains=0.35))
